@@ -37,7 +37,8 @@ pub fn handle(op: &str, a: &[&str]) -> Option<Resp> {
         ("deb.readbytes", [t]) => {
             let bytes = dbytes(t)?;
             let valid = std::str::from_utf8(&bytes).is_ok();
-            let strict = match Deb822::read(&bytes[..]) {
+            let strict_r = Deb822::read(&bytes[..]);
+            let strict = match &strict_r {
                 Ok(_) => "ok",
                 Err(deb822_lossless::Error::IoError(_)) => "io",
                 Err(_) => "err",
@@ -59,7 +60,15 @@ pub fn handle(op: &str, a: &[&str]) -> Option<Resp> {
                     } else if (strict == "ok") != errs.is_empty() {
                         fail = Some("read(bytes).is_ok() != read_relaxed errors.is_empty()".to_string());
                     }
-                    format!("ok x{} {} {}", hex(printed.as_bytes()), errs.len(), strict)
+                    // `Error::ParseError(e)` displays as `e` (lossless.rs:73)
+                    let payload = match &strict_r {
+                        Err(deb822_lossless::Error::ParseError(e)) => if e.to_string() == render_errors(&errs) { "eq" } else { "ne" },
+                        _ => "-",
+                    };
+                    if fail.is_none() && strict == "err" && (payload != "eq" || errs.is_empty()) {
+                        fail = Some("read(bytes) = Err(ParseError(l)) with l not the non-empty error list of read_relaxed(bytes)".to_string());
+                    }
+                    format!("ok x{} {} {} {} payload={}", hex(printed.as_bytes()), errs.len(), strict, es(&errs.join("\n")), payload)
                 }
             };
             if (strict == "io") == valid && fail.is_none() {
@@ -76,11 +85,23 @@ pub fn handle(op: &str, a: &[&str]) -> Option<Resp> {
                 Ok(d) => format!("ok:{}", es(&d.to_string())),
                 Err(_) => "err".to_string(),
             };
+            // the messages themselves, and whether the strict reader's `Err(ParseError(list))` is the
+            // tolerant reader's list (the field is private: `Display` writes every message followed
+            // by `\n`, lossless.rs:49-56; no message contains a line feed)
+            let msgs = errs.join("\n");
+            let payload = match &strict {
+                Ok(_) => "-",
+                Err(e) => if e.to_string() == render_errors(&errs) { "eq" } else { "ne" },
+            };
             let mut fail = None;
             if printed != s {
                 fail = Some("from_str_relaxed(s).to_string() != s".to_string());
             } else if strict.is_ok() != errs.is_empty() {
                 fail = Some("strict.is_ok() != relaxed errors.is_empty()".to_string());
+            } else if strict.is_err() && (payload != "eq" || errs.is_empty()) {
+                fail = Some("from_str(s) = Err(ParseError(l)) with l not the non-empty error list of from_str_relaxed(s)".to_string());
+            } else if errs.iter().any(|m| m.contains('\n')) {
+                fail = Some("an error message contains a line feed".to_string());
             } else if let Ok(d2) = &strict {
                 if d2.to_string() != s {
                     fail = Some("from_str(s).to_string() != s".to_string());
@@ -188,7 +209,7 @@ pub fn handle(op: &str, a: &[&str]) -> Option<Resp> {
                 }
             }
             Some(Resp::with(
-                format!("{} {} {} {}", es(&printed), errs.len(), strict_s, dump_deb(&d)),
+                format!("{} {} {} {} {} payload={}", es(&printed), errs.len(), strict_s, dump_deb(&d), es(&msgs), payload),
                 fail,
             ))
         }
@@ -219,6 +240,11 @@ pub fn handle(op: &str, a: &[&str]) -> Option<Resp> {
         }
         _ => None,
     }
+}
+
+/// `ParseError::to_string()` of a message list: every message followed by a line feed
+fn render_errors(errs: &[String]) -> String {
+    errs.iter().map(|m| format!("{}\n", m)).collect()
 }
 
 /// ASCII letters with their case swapped (field names are compared exactly: `get("source")` must
@@ -657,7 +683,18 @@ pub fn block_boundary_docs() -> Vec<String> {
     v
 }
 
+/// texts whose exact message lists are closed `example`s of Props/C01Msgs.lean and Props/C01More.lean
+/// (all three message forms, `Some(KIND)` / `None`, a byte order mark, CR LF line ends)
+pub const MSG_TEXTS: [&str; 12] = [
+    "é\nA: b\n", "A b\n", "é", "A b\nC d\n", "\u{feff}A: b\n", "A: b\r\nC: d\r\n", "A b\r\nC: d\r\n", "# c\nx",
+    "ééé", "A: b\n c\n\n#x\nD: e", "A", "A: b\n",
+];
+
 pub fn generate_c01(tier: &str, seed: u64, out: &mut Out) {
+    for t in MSG_TEXTS.iter() {
+        out.req("deb.read", &[es(t)]);
+        out.req("deb.readbytes", &[es(t)]);
+    }
     for t in gen_texts(tier, seed) {
         out.req("deb.read", &[es(&t)]);
     }
